@@ -121,7 +121,7 @@ JOBS['C03'] = [
 # ---------------------------------------------------------------- C02 / C20
 _bufs_units = [u for u in 'vi lbuf mot sbuf ren dir syn reg led uc term rset rstr regex cmd tag conf'.split()]
 META['C02'] = {
-    'bounds': {'quick': 'all histories of K=2 commands from a 16-entry menu (3 edits whose effect depends on symbolic text, u, redo, w, w! other, 1w, 1,$w, e!, e fN, e #, b N, b +, b -, line move; N symbolic) followed by q, over 3 files (C20 also: with all 16 table slots open and N in {1,2,15,16}); after every command every open buffer is inspected',
+    'bounds': {'quick': 'all histories of K=2 commands from a 16-entry menu (3 edits whose effect depends on symbolic text, u, redo, w, w! other, 1w, 1,$w, e!, e fN, e #, b N, b +, b -, line move; N symbolic) followed by q, over 3 files (C20 also: with all 16 table slots open, N in {1,2,15,16}, the most-recently-used order of the table equal to the numbering or disturbed by a jump to buffer 1 and back); after every command every open buffer is inspected',
                'thorough': 'K=3'},
     'outside': 'autowrite/writeany set (excluded by the property); more than 4 open buffers in this harness (the 16-slot table is exercised in C20 table job); vi-mode ZZ (same ex command)',
     'assumptions': ['dirty is defined against the actual bytes of the file in the environment, which only the editor writes'],
@@ -144,7 +144,7 @@ JOBS['C20'] = [
      'expect_reach': ['end', 'quit-refused', 'quit-allowed', 'switch-refused', 'switched', 'revisited'], 'timeout': {'quick': 280, 'thorough': 1700}},
     {'name': 'full_table', 'harness': 'c02_bufs.c', 'units': _bufs_units,
      'defs': {'quick': {'K': 2, 'NFILES': 17, 'PREOPEN': 16}, 'thorough': {'K': 3, 'NFILES': 17, 'PREOPEN': 16}},
-     'expect_reach': ['end', 'table-full', 'switched', 'revisited', 'deleted', 'evicted'], 'timeout': {'quick': 280, 'thorough': 1700}},
+     'expect_reach': ['end', 'table-full', 'hopped', 'switched', 'revisited', 'deleted', 'evicted'], 'timeout': {'quick': 280, 'thorough': 1700}},
 ]
 
 # ---------------------------------------------------------------- C10
@@ -244,7 +244,7 @@ JOBS['C17'] = [
     {'name': 'width_tables', 'harness': 'c17_tab.c', 'units': [], 'defs': {}, 'expect_reach': ['end'], 'timeout': {'quick': 280, 'thorough': 1700}},
 ]
 META['C18'] = {
-    'bounds': {'quick': 'all lines of <=4 characters over {Latin, digit, blank, -, Arabic BEH, Arabic ALEF, ZWNJ} (and, permutation only, with the mark characters $ \\\\ { } [ ] *) x td -2..2: permutation, newline last, runs reversed in place; shaping: previous/current/next over the whole joining-letter table or a non-letter or nothing, 0..2 diacritics on either side',
+    'bounds': {'quick': 'all lines of <=4 characters over {Latin, digit, blank, -, Arabic BEH, Arabic ALEF, ZWNJ} (and, permutation only, with the mark characters $ \\\\ { } [ ] *) x td -2..2: permutation, newline last, runs reversed in place; columns derived from the permutation for lines of <=4 characters in right-to-left context (Latin runs with TAB / wide characters) tile the line; shaping: previous/current/next over the whole joining-letter table or a non-letter or nothing, 0..2 diacritics on either side',
                'thorough': 'lines of <=5 characters'},
     'outside': 'longer lines; the exact effect of the configured mark patterns (only the permutation property is asserted for lines containing mark characters)',
     'assumptions': ['base direction: option td beyond +-1, else the first character, else the sign of td'],
@@ -253,9 +253,14 @@ JOBS['C18'] = [
     {'name': 'reorder', 'harness': 'c18_dir.c', 'units': _ren_units, 'defs': {'quick': {'LL': 4}, 'thorough': {'LL': 5}},
      'expect_reach': ['end', 'reversed'], 'timeout': {'quick': 280, 'thorough': 1700}},
     {'name': 'reorder_marks', 'harness': 'c18_dir.c', 'units': _ren_units, 'defs': {'quick': {'LL': 4, 'MARKS': 1}, 'thorough': {'LL': 5, 'MARKS': 1}},
-     'expect_reach': ['end', 'marks'], 'timeout': {'quick': 280, 'thorough': 1700}},
+     'heavy': True, 'expect_reach': ['end', 'marks'], 'timeout': {'quick': 280, 'thorough': 1700}},
     {'name': 'reorder_nested_mark', 'harness': 'c18_dir.c', 'units': _ren_units, 'defs': {'NESTED': 1},
      'expect_reach': ['end', 'nested'], 'timeout': {'quick': 280, 'thorough': 1700}},
+    # the columns derived from the permutation (ren_position_reorder: inverse permutation, prefix sums of widths) tile the line:
+    # Latin runs holding a TAB or a wide character inside a right-to-left line (the harness of C17)
+    {'name': 'positions_of_reordered_runs', 'harness': 'c17_ren.c', 'units': _ren_units,
+     'defs': {'quick': {'LL': 4, 'ORDER': 2, 'RTLCTX': 1}, 'thorough': {'LL': 5, 'ORDER': 2, 'RTLCTX': 1}},
+     'expect_reach': ['end', 'reorder-path'], 'timeout': {'quick': 280, 'thorough': 1700}},
     {'name': 'shaping', 'harness': 'c18_shape.c', 'units': [], 'defs': {},
      'expect_reach': ['end', 'medial', 'final', 'initial', 'isolated', 'nonletter'], 'timeout': {'quick': 280, 'thorough': 1700}},
 ]
